@@ -259,6 +259,9 @@ func GenesisCase(rec *Recorder, bls *BLSTable, st *Stats, r *hx.Rng, sp *common.
 	copy(hash[:], r.Bytes(32))
 	t := sp.MIN_GENESIS_TIME + common.Timestamp(r.Intn(500))
 	n := int(sp.SLOTS_PER_EPOCH) + r.Intn(12)
+	if kind == "badsig" || kind == "badpubkey" {
+		n += 16
+	}
 	inc := sp.EFFECTIVE_BALANCE_INCREMENT
 	type item struct {
 		dd common.DepositData
@@ -325,7 +328,7 @@ func GenesisCase(rec *Recorder, bls *BLSTable, st *Stats, r *hx.Rng, sp *common.
 		}
 	case "badsig":
 		for i := range dds {
-			switch r.Intn(5) {
+			switch r.Intn(9) {
 			case 0: // signed by another key
 				d := dds[i]
 				dom := common.ComputeDomain(common.DOMAIN_DEPOSIT, sp.GENESIS_FORK_VERSION, common.Root{})
